@@ -58,6 +58,8 @@ Record Specs (f : nat) : Prop := {
            (fun _ s' => Inv s' /\ Frame s s' [] /\ exists c', cell_of s' co = Some (CConn c') /\ c_queries c' = []);
   sp_check_cleanup : forall s, Inv s -> safe (check_cleanup cf f) s (post s []);
   sp_cleanup_loop : forall n s, Inv s -> safe (cleanup_loop cf f n) s (post s []);
+  sp_set_servers : forall s, Inv s -> safe (set_servers cf f) s (post s []);
+  sp_set_servers_loop : forall n s, Inv s -> safe (set_servers_loop cf f n) s (post s []);
   sp_cancel : forall s, Inv s -> safe (cancel cf f) s (post s []);
   sp_cancel_loop : forall n s, Inv s ->
       safe (cancel_loop_fixed cf f n) s
@@ -199,6 +201,8 @@ Lemma fx_connread_true : fx_connread (cf_fix cf) = true.
 Proof. rewrite Hfix. reflexivity. Qed.
 Lemma fx_qidearly_true : fx_qidearly (cf_fix cf) = true.
 Proof. rewrite Hfix. reflexivity. Qed.
+Lemma fx_cancelmark_true : fx_cancelmark (cf_fix cf) = true.
+Proof. rewrite Hfix. reflexivity. Qed.
 
 Lemma opaque_not_query s L o q : Own s L -> cell_of s o = Some (CQuery q) -> ~ In o L.
 Proof. intros [_ H] Hq Hin. destruct (H _ Hin) as [Hc _]. rewrite Hq in Hc. discriminate. Qed.
@@ -263,7 +267,8 @@ Proof.
   assert (F12 : Frame s s2 []).
   { eapply frame_shrink; [exact (frame_trans _ _ _ _ _ F1 F2)|].
     intros y c [Hy|[]] _. subst. left. exact Hl. }
-  destruct (Nat.ltb (q_try qb) (cf_max_tries cf) && negb (q_noretry qb)).
+  apply safe_bind. apply safe_get.
+  destruct (Nat.ltb (q_try qb) (st_nservers s2 * cf_tries cf) && negb (q_noretry qb)).
   - destruct df.
     + apply safe_ret. split; auto.
     + eapply safe_mono; [apply (sp_send_query _ IH); auto|].
@@ -412,6 +417,48 @@ Proof.
   intros [] s2 [I2 F2]. split; auto. exact (frame_core_l _ _ _ _ E1 F2).
 Qed.
 
+(* ---- ares_servers_update ---- *)
+Lemma set_servers_loop_step f : Specs f -> forall n s, Inv s -> safe (set_servers_loop cf (S f) n) s (post s []).
+Proof.
+  intros IH n s I. destruct n as [|n']; simpl; [apply safe_fail|].
+  apply safe_bind. apply safe_get.
+  assert (G : forall co c, In co (st_conns s) -> cell_of s co = Some (CConn c) ->
+            safe (close_connection cf f co ARES_SUCCESS;; set_servers_loop cf f n') s (post s [])).
+  { intros co c Hin Hc.
+    apply safe_bind. eapply safe_mono; [apply (sp_close_connection _ IH co ARES_SUCCESS s c); auto|].
+    intros [] s1 [I1 F1'].
+    assert (F1 : Frame s s1 []).
+    { eapply frame_shrink; [exact F1'|]. intros y c0 [<-|[]] _. right; left. exact Hin. }
+    eapply safe_mono; [apply (sp_set_servers_loop _ IH); auto|].
+    intros [] s2 [I2 F2]. split; auto. exact (frame_trans _ _ _ _ _ F1 F2). }
+  destruct (close_victim (st_tape s)) as [[|sock|qid]|]; [| | |apply safe_fail].
+  - apply safe_bind. apply safe_pop. intros e rest Et. apply safe_ret.
+    assert (E1 : core_eq s (set_tape rest s)) by apply core_eq_set_tape.
+    split; [apply (inv_core _ _ _ E1); auto|apply (ce_refl_frame _ _ _ I E1)].
+  - destruct (find_conn_by_sock_ok _ s sock I) as [r [E1 Hr]].
+    apply safe_bind. eapply safe_of_run; [exact E1|].
+    destruct r as [co|]; [|apply safe_fail].
+    destruct (Hr _ eq_refl) as [Hin [c [Hc Hncl]]]. apply (G co c); auto.
+  - destruct (lookup qid (st_byqid s)) as [qo|] eqn:Lk; [|apply safe_fail].
+    destruct (inv_byqid _ _ I _ _ Lk) as [Hl _]. destruct (inv_query _ _ I _ Hl) as [q Hq].
+    apply safe_bind. eapply safe_get_query; [exact (inv_heap _ _ I)|exact Hq|].
+    destruct (q_conn q) as [co|]; [|apply safe_fail].
+    destruct (memb co (st_conns s)) eqn:Mb; [|apply safe_fail].
+    apply memb_In in Mb. destruct (inv_conns _ _ I) as [_ Hcc]. destruct (Hcc _ Mb) as [c [Hc _]].
+    apply (G co c); auto.
+Qed.
+
+Lemma set_servers_step f : Specs f -> forall s, Inv s -> safe (set_servers cf (S f)) s (post s []).
+Proof.
+  intros IH s I. simpl. apply safe_bind. apply safe_pop. intros e rest Et.
+  destruct e; try apply safe_fail.
+  apply safe_bind. apply safe_modify.
+  set (s1 := set_nservers n (set_tape rest s)).
+  assert (E1 : core_eq s s1) by (eapply core_eq_trans; [apply core_eq_set_tape|apply core_eq_set_nservers]).
+  eapply safe_mono; [apply (sp_set_servers_loop _ IH); apply (inv_core _ _ _ E1); auto|].
+  intros [] s2 [I2 F2]. split; auto. exact (frame_core_l _ _ _ _ E1 F2).
+Qed.
+
 Lemma cancel_loop_step f : Specs f -> forall n s, Inv s ->
   safe (cancel_loop_fixed cf (S f) n) s
        (fun _ s' => Inv s' /\ Frame s s' [] /\ forall a qo l r, st_lists s' <> a :: (qo :: l) :: r).
@@ -428,12 +475,34 @@ Proof.
   intros [] s2 [I2 [F2 Hsh]]. split; auto. split; auto. exact (frame_trans _ _ _ _ _ F1 F2).
 Qed.
 
+(* ares_cancel marks the queries it has taken: only the flag changes *)
+Lemma mark_cancelled_ok l : forall s, Inv s -> incl l (linked s) ->
+  safe (mark_cancelled l) s (fun _ s' => Inv s' /\ Frame s s' [] /\ st_lists s' = st_lists s /\ st_tape s' = st_tape s
+                                       /\ st_trace s' = st_trace s /\ st_scripts s' = st_scripts s /\ st_conns s' = st_conns s).
+Proof.
+  induction l as [|qo r IHr]; intros s I Hl; simpl.
+  - apply safe_ret. split; auto. split; [apply (frame_refl _ _ I)|auto 10].
+  - assert (Hq0 : In qo (linked s)) by (apply Hl; left; auto).
+    destruct (inv_query _ _ I _ Hq0) as [q Hq].
+    apply safe_bind. apply safe_bind. eapply safe_get_query; [exact (inv_heap _ _ I)|exact Hq|].
+    eapply safe_store; [exact (inv_heap _ _ I)|exact Hq|].
+    destruct (store_query_misc_ok None s qo q (set_q_cancelled true q) I Hq eq_refl eq_refl eq_refl) as [I1 [F1 [_ [Ell1 _]]]].
+    set (s1 := store_st qo (CQuery (set_q_cancelled true q)) s) in *.
+    assert (F1' : Frame s s1 []).
+    { eapply frame_shrink; [exact F1|]. intros y c [<-|[]] _. left. exact Hq0. }
+    eapply safe_mono; [apply (IHr s1 I1)|].
+    + intros y Hy. rewrite Ell1. apply Hl. right. exact Hy.
+    + intros [] s2 [I2 [F2 [E1 [E2 [E3 [E4 E5]]]]]]. split; auto. split; [exact (frame_trans _ _ _ _ _ F1' F2)|].
+      rewrite E1, E2, E3, E4, E5. repeat split; reflexivity.
+Qed.
+
 Lemma cancel_unfold f :
   cancel cf (S f) =
   (let! s := get in
    (match st_lists s with
     | (_ :: _) as l :: rest =>
         modify (set_lists ([] :: l :: rest)) ;;
+        (if fx_cancelmark (cf_fix cf) then mark_cancelled l else ret tt) ;;
         (if fx_unlink (cf_fix cf) then cancel_loop_fixed cf f f else cancel_loop_pinned cf f l) ;;
         modify (fun s => set_lists (match st_lists s with a :: _ :: r => a :: r | x => x end) s)
     | _ => ret tt end) ;;
@@ -452,9 +521,12 @@ Proof.
   - apply safe_bind. apply safe_bind. apply safe_modify.
     destruct (lists_same_linked None s ([] :: (q0 :: l0) :: rest)) as [I1 [F1 _]]; auto.
     { unfold linked. rewrite El. reflexivity. }
-    rewrite fx_unlink_true.
-    apply safe_bind. eapply safe_mono; [apply (sp_cancel_loop _ IH); exact I1|].
-    intros [] s2 [I2 [F2 Hsh]].
+    rewrite fx_unlink_true, fx_cancelmark_true.
+    apply safe_bind. eapply safe_mono; [apply (mark_cancelled_ok (q0 :: l0) _ I1)|].
+    { intros y Hy. unfold linked. simpl. destruct Hy as [->|Hy]; [left; auto|right; apply in_or_app; left; exact Hy]. }
+    intros [] sm [Im [Fm _]].
+    apply safe_bind. eapply safe_mono; [apply (sp_cancel_loop _ IH); exact Im|].
+    intros [] s2 [I2 [F2' Hsh]]. pose proof (frame_trans _ _ _ _ _ Fm F2') as F2.
     apply safe_modify.
     set (ls2 := match st_lists s2 with a :: _ :: r => a :: r | x => x end).
     destruct (lists_same_linked None s2 ls2) as [I3 [F3 _]]; auto.
@@ -587,6 +659,10 @@ Proof.
   intros IH qo s I Hl. simpl.
   destruct (inv_query _ _ I _ Hl) as [q Hq].
   apply safe_bind. eapply safe_get_query; [exact (inv_heap _ _ I)|exact Hq|].
+  apply safe_bind. apply safe_get.
+  destruct (Nat.eqb (st_nservers s) 0).
+  { apply safe_bind. eapply safe_mono; [apply (sp_end_query _ IH); [apply inv_weaken; exact I|exact Hl]|].
+    intros [] s2 [I2 F2]. apply safe_ret. split; auto. }
   apply safe_bind. apply safe_peek.
   assert (Dflt : safe (send_query_write cf f qo false) s (postA s [])) by (apply (sp_send_query_write _ IH); auto).
   destruct (hd_error (st_tape s)) as [e|]; [|exact Dflt].
@@ -629,6 +705,8 @@ Proof. reflexivity. Qed.
 Lemma send_nolock_unfold f k probe qd :
   send_nolock cf (S f) k probe qd =
   (let! qid := gen_qid 8 in
+   let! s0 := get in
+   if Nat.eqb (st_nservers s0) 0 then invoke cf f k (res ARES_ENOSERVER) ;; ret ARES_ENOSERVER else
    let! cached :=
      (if probe then ret None
       else let! e := pop in
@@ -648,7 +726,7 @@ Lemma send_nolock_unfold f k probe qd :
        else
          (if cf_dns0x20 cf then (let! e := peek in match e with Some (TN _) => let! _ := pop in ret tt | _ => ret tt end) else ret tt) ;;
          let! qo := alloc (CQuery {| q_qid := qid; q_cb := k; q_conn := None; q_try := 0; q_noretry := probe;
-                                     q_tcp := false; q_err := ARES_SUCCESS |}) in
+                                     q_tcp := false; q_err := ARES_SUCCESS; q_cancelled := false |}) in
          link_all qo ;;
          modify (fun s => set_byqid ((qid, qo) :: st_byqid s) s) ;;
          (if fx_qidearly (cf_fix cf) then write_qid qd qid else ret tt) ;;
@@ -700,7 +778,7 @@ Proof.
                                      match e0 with Some (TN _) => let! _ := pop in ret tt | _ => ret tt end
                                 else ret tt);;
                                (let! qo := alloc (CQuery {| q_qid := qid; q_cb := k; q_conn := None; q_try := 0;
-                                                           q_noretry := pr; q_tcp := false; q_err := ARES_SUCCESS |}) in
+                                                           q_noretry := pr; q_tcp := false; q_err := ARES_SUCCESS; q_cancelled := false |}) in
                                 link_all qo;;
                                 modify (fun s0 => set_byqid ((qid, qo) :: st_byqid s0) s0);;
                                 write_qid qd qid;;
@@ -727,7 +805,7 @@ Proof.
       + (* dns0x20 *)
         assert (D : forall s4, core_eq s s4 -> st_scripts s4 = st_scripts s -> lookup qid (st_byqid s4) = None ->
                   safe (let! qo := alloc (CQuery {| q_qid := qid; q_cb := k; q_conn := None; q_try := 0;
-                                                    q_noretry := pr; q_tcp := false; q_err := ARES_SUCCESS |}) in
+                                                    q_noretry := pr; q_tcp := false; q_err := ARES_SUCCESS; q_cancelled := false |}) in
                         link_all qo;;
                         modify (fun s0 => set_byqid ((qid, qo) :: st_byqid s0) s0);;
                         write_qid qd qid;;
@@ -737,7 +815,7 @@ Proof.
           assert (I4 : Inv s4) by (apply (inv_core _ _ _ E4); auto).
           assert (O4 : Own s4 (cobjs k)) by (apply (own_core _ _ _ E4); auto).
           assert (Hg4 : GivenOk s4 (kbot k)) by (apply (given_core _ _ _ E4); auto).
-          set (q0 := {| q_qid := qid; q_cb := k; q_conn := None; q_try := 0; q_noretry := pr; q_tcp := false; q_err := ARES_SUCCESS |}).
+          set (q0 := {| q_qid := qid; q_cb := k; q_conn := None; q_try := 0; q_noretry := pr; q_tcp := false; q_err := ARES_SUCCESS; q_cancelled := false |}).
           destruct (new_query_ok s4 k qid q0 I4 O4 Hg4 Lk4 eq_refl eq_refl eq_refl) as [I5 [F5 [Hl5 [Hq5 [Hsame5 _]]]]].
           apply safe_bind. apply safe_alloc.
           apply safe_bind. eapply safe_of_run; [apply link_all_run|].
@@ -762,6 +840,10 @@ Proof.
           -- eapply core_eq_trans; [exact E3|apply core_eq_set_tape].
           -- simpl. congruence.
           -- exact Lk3. }
+  apply safe_bind. apply safe_get.
+  destruct (Nat.eqb (st_nservers s1) 0).
+  { apply safe_bind. eapply safe_mono; [apply (sp_invoke _ IH); auto; apply (given_core _ _ _ E1); auto|].
+    intros [] s3 [I3 F3]. apply safe_ret. split; auto. exact (frame_core_l _ _ _ _ E1 F3). }
   destruct pr.
   - apply safe_bind. apply safe_ret. apply (G None); [apply core_eq_refl|reflexivity].
   - apply safe_bind. apply safe_bind. apply safe_pop. intros e rest Et. destruct e; try apply safe_fail.
@@ -1085,10 +1167,12 @@ Proof.
     assert (HO1 : HOwn s1 o h1) by (split; [exact Hc1|split; [exact Hz1|split; [rewrite Ecb1; exact Hnh|rewrite Ecb1; exact O1]]]).
     assert (I2 : Inv s2) by (apply (ce_inv _ _ _ E2); auto).
     pose proof (hown_core _ _ _ _ E2 HO1) as HO2. pose proof HO2 as [Hc2 _].
-    apply safe_bind. eapply safe_get_host; [exact (inv_heap _ _ I2)|exact Hc2|].
+    remember (h_nomem h1 || zeqb (r_status r) ARES_ENOMEM || zeqb ais ARES_ENOMEM) as nm eqn:Enm.
+    apply safe_bind. eapply safe_get_host; [exact (inv_heap _ _ I2)|exact Hc2|]. rewrite <- Enm.
+    match goal with |- context [h_set_ai nodes v4 nm ?x h1] => remember x as nd eqn:End; clear End end.
     apply safe_bind. eapply safe_store; [exact (inv_heap _ _ I2)|exact Hc2|].
-    destruct (hown_store s2 o h1 (h_set_ai nodes v4 h1) I2 HO2 eq_refl Hz1) as [I3 [F3 HO3]].
-    set (h3 := h_set_ai nodes v4 h1) in *. set (s3 := store_st o (CHost h3) s2) in *.
+    destruct (hown_store s2 o h1 (h_set_ai nodes v4 nm nd h1) I2 HO2 eq_refl Hz1) as [I3 [F3 HO3]].
+    set (h3 := h_set_ai nodes v4 nm nd h1) in *. set (s3 := store_st o (CHost h3) s2) in *.
     assert (Ecb3 : h_cb h3 = h_cb h) by reflexivity.
     simpl negb. rewrite andb_false_r. apply safe_bind. apply safe_ret.
     (* whatever comes next ends with the host_query released or waiting again *)
@@ -1108,6 +1192,7 @@ Proof.
       intros [] sB HB. apply (Fin sA hA sB); auto. }
     pose proof HO3 as [Hc3 [Hz3 _]].
     destruct (zeqb (r_status r) ARES_EDESTRUCTION || zeqb (r_status r) ARES_ECANCELLED); [apply FinE|].
+    destruct nm; [apply FinE|].
     destruct (negb (zeqb ais ARES_SUCCESS) && negb (zeqb ais ARES_ENODATA)).
     { destruct (zeqb ais ARES_EBADRESP && nodes); apply FinE. }
     destruct nodes; [apply FinE|].
@@ -1132,12 +1217,14 @@ Proof.
     assert (I2 : Inv s2) by (apply (ce_inv _ _ _ E2); auto).
     assert (Hs2 : shared_at s2 o = Some h1) by (rewrite (ce_shared _ _ _ E2); exact Hs1).
     destruct (shared_host _ _ _ Hs2) as [Hc2 _].
-    apply safe_bind. eapply safe_get_host; [exact (inv_heap _ _ I2)|exact Hc2|].
+    remember (h_nomem h1 || zeqb (r_status r) ARES_ENOMEM || zeqb ais ARES_ENOMEM) as nm eqn:Enm.
+    apply safe_bind. eapply safe_get_host; [exact (inv_heap _ _ I2)|exact Hc2|]. rewrite <- Enm.
+    match goal with |- context [h_set_ai nodes v4 nm ?x h1] => remember x as nd eqn:End; clear End end.
     apply safe_bind. eapply safe_store; [exact (inv_heap _ _ I2)|exact Hc2|].
-    destruct (store_host_shared_ok None s2 o h1 (h_set_ai nodes v4 h1) (dg None) I2 Hs2 eq_refl Hp1) as [I3 [F3 _]].
+    destruct (store_host_shared_ok None s2 o h1 (h_set_ai nodes v4 nm nd h1) (dg None) I2 Hs2 eq_refl Hp1) as [I3 [F3 _]].
     { simpl. lia. } { intros; reflexivity. }
     { simpl. pose proof (hi_cnt _ (inv_hosts _ _ I2) _ _ Hs2). lia. }
-    set (s3 := store_st o (CHost (h_set_ai nodes v4 h1)) s2) in *.
+    set (s3 := store_st o (CHost (h_set_ai nodes v4 nm nd h1)) s2) in *.
     assert (F13 : FrameG (dg (Some o)) s s3 []).
     { exact (frame_trans_gl _ _ _ _ _ _ F1 (frame_core_l _ _ _ _ E2 F3)). }
     simpl negb.
@@ -1264,6 +1351,12 @@ Proof.
     exact (frame_alloc_host_drop None s2 h0 s4 [w] I2 eq_refl F4 St4).
   - (* ACancel *)
     apply (sp_cancel _ IH); auto.
+  - (* ASetServers *)
+    apply safe_bind. apply safe_emit.
+    set (s1 := set_trace (EvSetServers :: st_trace s) s).
+    assert (E1 : core_eq s s1) by apply core_eq_set_trace.
+    eapply safe_mono; [apply (sp_set_servers _ IH s1); apply (inv_core _ _ _ E1); auto|].
+    intros [] s2 [I2 F2]. split; auto. exact (frame_core_l _ _ _ _ E1 F2).
   - (* ANop *)
     apply safe_ret. split; auto. apply (frame_refl _ _ I).
 Qed.
@@ -1287,6 +1380,8 @@ Proof.
   - apply requeue_conn_queries_step; auto.
   - apply check_cleanup_step; auto.
   - apply cleanup_loop_step; auto.
+  - apply set_servers_step; auto.
+  - apply set_servers_loop_step; auto.
   - apply cancel_step; auto.
   - apply cancel_loop_step; auto.
   - apply search_int_step; auto.
@@ -1681,7 +1776,7 @@ End Fixed.
 (* ---------------------------------------------------------------------------------- *)
 (* Histories                                                                           *)
 (* ---------------------------------------------------------------------------------- *)
-Lemma init_inv : Inv2 init_state.
+Lemma init_inv cf : Inv2 (init_state cf).
 Proof.
   split.
   - constructor; simpl; unfold cell_of, linked, chain; simpl.
@@ -1767,8 +1862,8 @@ Proof.
   intros Hfix k. unfold run.
   assert (S : safe (let! destroyed := run_from cf fuel h in
                     (if destroyed then ret tt else step cf fuel IDestroy final);; emit EvEnd)
-                   init_state (fun _ _ => True)).
-  { apply safe_bind. eapply safe_mono; [apply (run_from_ok cf fuel h init_state Hfix init_inv)|].
+                   (init_state cf) (fun _ _ => True)).
+  { apply safe_bind. eapply safe_mono; [apply (run_from_ok cf fuel h (init_state cf) Hfix (init_inv cf))|].
     intros d s1 I1. apply safe_bind.
     - destruct d.
       + apply safe_ret. apply safe_emit. exact Logic.I.
@@ -1776,6 +1871,6 @@ Proof.
         intros [] s2 I2. apply safe_emit. exact Logic.I. }
   unfold safe in S.
   destruct ((let! destroyed := run_from cf fuel h in
-             (if destroyed then ret tt else step cf fuel IDestroy final);; emit EvEnd) init_state)
+             (if destroyed then ret tt else step cf fuel IDestroy final);; emit EvEnd) (init_state cf))
     as [[a s']|e|k']; try discriminate. destruct S.
 Qed.
